@@ -12,6 +12,16 @@
 //   pbits               print the last snapshot and forget it
 //   pmode naive|keep    naive: first() sets its position to block 0 before it knows whether it is ready (and
 //                       next() pre-increments), as a straightforward iterator would; keep (default): see below
+// Resources the caller owns (C13 part 5).  Every command prints, after the usual "scan msgs=.. rc=.." line, one
+// "own ..." line: fds=<open descriptors after - before, temp files and own descriptors closed>, buf=same|changed
+// (checksum of the caller's buffer), file=same|changed (st_ino/st_size/st_mtim of the scanned file),
+// fd=open|closed,same|other,pos=<lseek position now>:<before>,flags=<F_GETFD> for a descriptor the caller passed in.
+//   own <rmem|smem|rfile|sfile|rfd|sfd> <flags> <hex>       one scan through that entry point on fresh resources
+//   ownpath <rfile|sfile> <missing|dir|empty|unreadable>     the path-based entry points on paths that fail (or not)
+//   fdopen <hex> <pos>   create a file, open ONE descriptor on it, seek to pos; kept until fdend
+//   fdscan <r|s> <flags> yr_rules_scan_fd / yr_scanner_scan_fd on that descriptor
+//   fddecoy <hex>        open an unrelated file (a closed descriptor number would now refer to it); kept until fdend
+//   fdend                close and unlink everything
 // Iterator semantics ("position keeping"): the iterator remembers the index of the last block it delivered
 // (-1 at piter).  first(): if ready deliver block 0.  next(): if ready deliver block last+1.  A not-ready answer
 // changes nothing but last_error.  Hence next() after a not-ready first() delivers block 0: this is what an
@@ -23,6 +33,8 @@
 #undef main
 #undef run_case
 #include <yara/bitmask.h>
+#include <dirent.h>
+#include <sys/stat.h>
 
 static struct
 {
@@ -117,6 +129,171 @@ static int p_one(HS* s, int rules_level, int flags)
   return rc;
 }
 
+
+// ---- resources the caller owns
+static struct
+{
+  int fd; char path[64]; struct stat st; off_t pos;
+  int decoy[16]; char decoy_path[16][64]; int ndecoy;
+} O = { -1 };
+
+static int count_fds(void)
+{
+  DIR* d = opendir("/proc/self/fd");
+  int n = 0;
+  struct dirent* e;
+  if (!d) return -1;
+  while ((e = readdir(d)) != NULL) n++;
+  closedir(d);
+  return n - 3;   // ".", "..", the directory stream itself
+}
+
+static uint64_t cksum(const uint8_t* p, size_t n)
+{
+  uint64_t h = 1469598103934665603ULL;
+  for (size_t i = 0; i < n; i++) { h ^= p[i]; h *= 1099511628211ULL; }
+  return h;
+}
+
+static int mktmp(char* path, const uint8_t* b, size_t len)
+{
+  strcpy(path, "/dev/shm/hownXXXXXX");
+  int fd = mkstemp(path);
+  if (fd < 0) { strcpy(path, "/tmp/hownXXXXXX"); fd = mkstemp(path); }
+  if (len) { ssize_t w = write(fd, b, len); (void) w; }
+  return fd;
+}
+
+static int same_file(const struct stat* a, const struct stat* b)
+{
+  return a->st_ino == b->st_ino && a->st_dev == b->st_dev && a->st_size == b->st_size &&
+         a->st_mtim.tv_sec == b->st_mtim.tv_sec && a->st_mtim.tv_nsec == b->st_mtim.tv_nsec;
+}
+
+static void fd_state(FILE* o, int fd, const struct stat* before, off_t pos)
+{
+  struct stat now;
+  int fl = fcntl(fd, F_GETFD);
+  if (fl == -1 || fstat(fd, &now) != 0) { fprintf(o, " fd=closed"); return; }
+  fprintf(o, " fd=open,%s,pos=%lld:%lld,flags=%d", same_file(before, &now) ? "same" : "other",
+          (long long) lseek(fd, 0, SEEK_CUR), (long long) pos, fl);
+}
+
+static void own_cmd(HS* s, char* p)
+{
+  FILE* o = s->out;
+  char* e = tok(&p);
+  int flags = atoi(tok(&p));
+  size_t len;
+  uint8_t* b = h_unhex(tok(&p), &len);
+  int fds0 = count_fds();
+  uint64_t ck = cksum(b, len);
+  char path[64] = "";
+  int fd = -1, rc = -1;
+  struct stat st0, st1;
+  off_t pos = 0;
+  int is_file = !strcmp(e, "rfile") || !strcmp(e, "sfile"), is_fd = !strcmp(e, "rfd") || !strcmp(e, "sfd");
+  if (is_file || is_fd)
+  {
+    fd = mktmp(path, b, len);
+    if (is_file) { close(fd); fd = -1; }
+    else { pos = len > 1 ? 1 : 0; lseek(fd, pos, SEEK_SET); }
+    stat(path, &st0);
+  }
+  s->msg_index = 0;
+  fprintf(o, "scan msgs=");
+  if (e[0] == 's') yr_scanner_set_flags(s->scanner[s->cur], flags);
+  if (!strcmp(e, "rmem")) rc = yr_rules_scan_mem(cur_rules(s), b, len, flags, scan_cb, s, 0);
+  else if (!strcmp(e, "smem")) rc = yr_scanner_scan_mem(s->scanner[s->cur], b, len);
+  else if (!strcmp(e, "rfile")) rc = yr_rules_scan_file(cur_rules(s), path, flags, scan_cb, s, 0);
+  else if (!strcmp(e, "sfile")) rc = yr_scanner_scan_file(s->scanner[s->cur], path);
+  else if (!strcmp(e, "rfd")) rc = yr_rules_scan_fd(cur_rules(s), fd, flags, scan_cb, s, 0);
+  else if (!strcmp(e, "sfd")) rc = yr_scanner_scan_fd(s->scanner[s->cur], fd);
+  fprintf(o, " rc=%d\n", rc);
+  fprintf(o, "own entry=%s buf=%s", e, cksum(b, len) == ck ? "same" : "changed");
+  if (is_file || is_fd)
+  {
+    int ok = stat(path, &st1) == 0 && same_file(&st0, &st1);
+    fprintf(o, " file=%s", ok ? "same" : "changed");
+    if (is_fd) { fd_state(o, fd, &st0, pos); close(fd); }
+    unlink(path);
+  }
+  fprintf(o, " fds=%d\n", count_fds() - fds0);
+  free(b);
+}
+
+static void ownpath_cmd(HS* s, char* p)
+{
+  FILE* o = s->out;
+  char* e = tok(&p);
+  char* kind = tok(&p);
+  char path[64] = "/dev/shm/hown-missing-XXXXXX";
+  int made = 0;
+  if (!strcmp(kind, "dir")) { strcpy(path, "/dev/shm/howndXXXXXX"); if (!mkdtemp(path)) { strcpy(path, "/tmp/howndXXXXXX"); mkdtemp(path); } made = 2; }
+  else if (!strcmp(kind, "empty")) { int fd = mktmp(path, NULL, 0); close(fd); made = 1; }
+  else if (!strcmp(kind, "unreadable")) { int fd = mktmp(path, (const uint8_t*) "abcabc", 6); fchmod(fd, 0); close(fd); made = 1; }
+  int fds0 = count_fds();
+  s->msg_index = 0;
+  fprintf(o, "scan msgs=");
+  int rc = !strcmp(e, "rfile") ? yr_rules_scan_file(cur_rules(s), path, 0, scan_cb, s, 0)
+                               : yr_scanner_scan_file(s->scanner[s->cur], path);
+  fprintf(o, " rc=%d\n", rc);
+  fprintf(o, "own entry=%s path=%s euid=%d fds=%d\n", e, kind, (int) geteuid(), count_fds() - fds0);
+  if (made == 1) unlink(path);
+  if (made == 2) rmdir(path);
+}
+
+static void fd_cmds(HS* s, const char* c, char* p)
+{
+  FILE* o = s->out;
+  size_t len;
+  if (!strcmp(c, "fdopen"))
+  {
+    uint8_t* b = h_unhex(tok(&p), &len);
+    O.pos = atoi(tok(&p));
+    O.fd = mktmp(O.path, b, len);
+    lseek(O.fd, O.pos, SEEK_SET);
+    fstat(O.fd, &O.st);
+    fprintf(o, "fdopen fd=%s\n", O.fd >= 0 ? "ok" : "failed");
+    free(b);
+  }
+  else if (!strcmp(c, "fdscan"))
+  {
+    char* which = tok(&p);
+    int flags = atoi(tok(&p));
+    int fds0 = count_fds(), rc;
+    s->msg_index = 0;
+    fprintf(o, "scan msgs=");
+    if (which[0] == 'r') rc = yr_rules_scan_fd(cur_rules(s), O.fd, flags, scan_cb, s, 0);
+    else { yr_scanner_set_flags(s->scanner[s->cur], flags); rc = yr_scanner_scan_fd(s->scanner[s->cur], O.fd); }
+    fprintf(o, " rc=%d\n", rc);
+    fprintf(o, "own entry=%cfd-kept", which[0]);
+    fd_state(o, O.fd, &O.st, O.pos);
+    fprintf(o, " fds=%d\n", count_fds() - fds0);
+  }
+  else if (!strcmp(c, "fddecoy"))
+  {
+    uint8_t* b = h_unhex(tok(&p), &len);
+    if (O.ndecoy < 16)
+    {
+      int fd = mktmp(O.decoy_path[O.ndecoy], b, len);
+      lseek(fd, 0, SEEK_SET);
+      O.decoy[O.ndecoy++] = fd;
+    }
+    free(b);
+  }
+  else if (!strcmp(c, "fdend"))
+  {
+    // close only what is still ours: if the library closed O.fd a decoy may own that number now
+    int reused = 0;
+    for (int i = 0; i < O.ndecoy; i++) if (O.decoy[i] == O.fd) reused = 1;
+    if (O.fd >= 0 && !reused) close(O.fd);
+    if (O.path[0]) unlink(O.path);
+    for (int i = 0; i < O.ndecoy; i++) { close(O.decoy[i]); unlink(O.decoy_path[i]); }
+    O.fd = -1; O.ndecoy = 0; O.path[0] = 0;
+  }
+}
+
 static void proto_cmd(HS* s, char* line)
 {
   char* copy = strdup(line);
@@ -151,6 +328,9 @@ static void proto_cmd(HS* s, char* line)
   }
   else if (!strcmp(c, "pbits")) p_bits(s);
   else if (!strcmp(c, "pmode")) P.naive = !strcmp(tok(&p), "naive");
+  else if (!strcmp(c, "own")) own_cmd(s, p);
+  else if (!strcmp(c, "ownpath")) ownpath_cmd(s, p);
+  else if (!strncmp(c, "fd", 2) && (!strcmp(c, "fdopen") || !strcmp(c, "fdscan") || !strcmp(c, "fddecoy") || !strcmp(c, "fdend"))) fd_cmds(s, c, p);
   else do_cmd(s, line);
   free(copy);
 }
